@@ -130,7 +130,7 @@ def build_harness(flavor, name, extra_src=()):
         base = [CC, "-std=gnu11", "-g", "-fno-omit-frame-pointer", "-fblocks", "-Wall", "-Wextra",
                 "-Wno-unused-parameter", "-Werror=implicit-function-declaration",
                 "-Werror=incompatible-pointer-types", "-Werror=int-conversion",
-                "-I" + REPO, "-I" + os.path.join(BUILD, flavor, "vfinc"), "-I" + ld, "-I" + hdir,
+                "-I" + REPO, "-I" + os.path.join(REPO, "src", "BlocksRuntime"), "-I" + os.path.join(BUILD, flavor, "vfinc"), "-I" + ld, "-I" + hdir,
                 "-DVF_FLAVOR_" + flavor.upper() + "=1"]
         objs = []
         # vf_common is never TSan-instrumented: its statistics are deliberately racy
